@@ -623,6 +623,7 @@ def inexact_gradient_step(x0, f, gamma, epsilon, notion='absolute'):
         u = g / np.linalg.norm(g)          # shortens the step the most
     elif mode == "against_gradient" and np.linalg.norm(g) > 0:
         u = -g / np.linalg.norm(g)
+    CTX.inexact_units = getattr(CTX, "inexact_units", []) + [np.array(u, dtype=float)]
     if notion == 'absolute':
         d = g - epsilon * u
     elif notion == 'relative':
@@ -961,7 +962,7 @@ def run_numeric(func_module, func_name, kwargs, member_seed, dir_seed, dim, adve
                 "members": [f.member.describe() for f in ctx.functions], "n_decl": ctx.n_decl, "n_init": ctx.n_init,
                 "n_unit": getattr(ctx, "n_unit", 0), "n_level": getattr(ctx, "n_level", 0),
                 "env": {"functions": list(ctx.functions), "x0": list(ctx.init_points), "special": list(ctx.special_points),
-                        "dim": ctx.dim, "n_choice": ctx.n_choice}}
+                        "dim": ctx.dim, "n_choice": ctx.n_choice, "inexact_units": list(getattr(ctx, "inexact_units", []))}}
     finally:
         restore()
         CTX = None
